@@ -117,7 +117,20 @@ class CtorUnit(Unit):
         kw = {p: a[p] for p in a if p in self.sig.parameters}
         kw.update(self.extra_kwargs(case, a, X))
         self._kw = kw
-        return X.call(self.cls, self.opcode_obj(case), **kw)
+        self.rebuilt = None
+        cmd = X.call(self.cls, self.opcode_obj(case), **kw)
+        # the same object asked to build its CDB again from the very field values it carries
+        cdb = getattr(cmd, "cdb", None)
+        if isinstance(cdb, (bytearray, V.SBytes)) and self.layout is not None and len(cdb) == self.layout.length:
+            first = list(cdb)
+            try:
+                dec = X.call(self.cls.unmarshall_cdb, cdb)
+                self.rebuilt = ("return", first, X.call(cmd.build_cdb, **dec))
+            except V.EngineSignal:
+                raise
+            except Exception as ex:
+                self.rebuilt = ("raise", first, ex)
+        return cmd
 
     # ---- exceptional postconditions (C17)
     def raises(self, case, a):
@@ -163,6 +176,18 @@ class CtorUnit(Unit):
             if m:
                 yield "C01", "reserved-bits-zero:byte%d" % i, (cdb[i] & m) == 0
         yield from self.ensures_data(case, a, cmd, cdb)
+        rb = getattr(self, "rebuilt", None)
+        if rb is not None:
+            ok = rb[0] == "return" and isinstance(rb[2], (bytearray, bytes, V.SBytes)) and len(rb[2]) == len(rb[1])
+            note = "" if rb[0] == "return" else " (raised %s)" % type(rb[2]).__name__
+            if ok:
+                eq = True
+                for x, y in zip(rb[1], list(rb[2])):
+                    if x is not y:
+                        eq = V.band(eq, x == y)
+                ok = eq
+            yield "C01", "build_cdb-again-on-the-same-object-gives-the-same-wire-format" + note, ok
+            yield "C09", "repeating-build_cdb-with-equal-inputs-yields-equal-bytes" + note, ok
 
     def expected_field(self, p, a, case):
         return a[p]
